@@ -399,17 +399,20 @@ cJSON *add_element_to_peer(struct peer *p, const cJSON *request)
 		return response;
 	}
 
-	if (unlikely(find_fetchers_for_element(e) != 0)) {
-		free_element(e);
-		return create_error_response_from_request(p, request, INTERNAL_ERROR, "reason", "could not notify fetching peer");
-	}
-
 	if (unlikely(element_table_put(e->path, e) != HASHTABLE_SUCCESS)) {
 		free_element(e);
 		return create_error_response_from_request(p, request, INTERNAL_ERROR, "reason", "element table full");
 	}
 
 	list_add_tail(&e->element_list, &p->element_list);
+
+	/*
+	 * Fetchers are only told about elements that really exist. A
+	 * fetcher that cannot be notified does not undo the add.
+	 */
+	if (unlikely(find_fetchers_for_element(e) != 0)) {
+		log_peer_err(p, "Could not notify all fetching peers about new element %s\n", e->path);
+	}
 
 	return create_success_response_from_request(p, request);
 }
